@@ -17,6 +17,7 @@ import (
 	"github.com/smart-core-os/sc-golang/internal/testproto"
 	"github.com/smart-core-os/sc-golang/pkg/resource"
 	"github.com/smart-core-os/sc-golang/pkg/trait/onoffpb"
+	"github.com/smart-core-os/sc-golang/pkg/trait/presspb"
 	"verifrt"
 	"verifrt/hx"
 )
@@ -340,22 +341,67 @@ func resBody(name string, kind string, writes []string, subs []subSpec) func() {
 
 // ---------------------------------------------------------------- harness C: a trait model's forwarder
 
-func modelBody(name string, abandon int, backpressure bool) func() {
-	return func() {
+// modelKind: one trait model seen as "open a Pull, receive from it, write to it"
+type modelKind struct {
+	name string
+	// open subscribes; next receives one change (false: channel closed); drained tells whether the channel is closed
+	open func(ctx context.Context, backpressure bool) (next func() bool, drained func() bool, write func(k int) error)
+}
+
+var modelKinds = []modelKind{
+	{"onoff", func(ctx context.Context, bp bool) (func() bool, func() bool, func(int) error) {
 		m := onoffpb.NewModel()
+		var ch <-chan onoffpb.PullOnOffChange
+		return func() bool {
+				if ch == nil {
+					ch = m.PullOnOff(ctx, resource.WithBackpressure(bp))
+				}
+				_, ok := <-ch
+				return ok
+			}, func() bool { return ch == nil || drainClosed(ch) }, func(k int) error {
+				st := traits.OnOff_ON
+				if k%2 == 1 {
+					st = traits.OnOff_OFF
+				}
+				_, err := m.UpdateOnOff(&traits.OnOff{State: st})
+				return err
+			}
+	}},
+	{"press", func(ctx context.Context, bp bool) (func() bool, func() bool, func(int) error) {
+		m := presspb.NewModel(traits.PressedState_UNPRESSED)
+		var ch <-chan presspb.PullPressedStateChange
+		return func() bool {
+				if ch == nil {
+					ch = m.PullPressedState(ctx, resource.WithBackpressure(bp))
+				}
+				_, ok := <-ch
+				return ok
+			}, func() bool { return ch == nil || drainClosed(ch) }, func(k int) error {
+				st := traits.PressedState_PRESSED
+				if k%2 == 1 {
+					st = traits.PressedState_UNPRESSED
+				}
+				_, err := m.UpdatePressedState(&traits.PressedState{State: st})
+				return err
+			}
+	}},
+}
+
+func modelBody(name string, kind modelKind, abandon int, backpressure bool) func() {
+	return func() {
 		ctx, cancel := context.WithCancel(context.Background())
+		next, drained, write := kind.open(ctx, backpressure)
 		closed := false
-		var probe func() bool
+		opened := false
 		go func() {
-			ch := m.PullOnOff(ctx, resource.WithBackpressure(backpressure))
-			probe = func() bool { return drainClosed(ch) }
 			left := abandon
 			for {
-				if left == 0 {
+				if left == 0 && opened {
 					cancel() // lost interest: cancel and stop receiving
 					return
 				}
-				_, ok := <-ch
+				ok := next()
+				opened = true
 				if !ok {
 					closed = true
 					return
@@ -370,11 +416,7 @@ func modelBody(name string, abandon int, backpressure bool) func() {
 		go func() {
 			defer ww.Done()
 			for k := 0; k < 2; k++ {
-				st := traits.OnOff_ON
-				if k%2 == 1 {
-					st = traits.OnOff_OFF
-				}
-				if _, err := m.UpdateOnOff(&traits.OnOff{State: st}); err != nil {
+				if err := write(k); err != nil {
 					verifrt.Logf("FAIL write-error %s ## %v", name, err)
 				}
 			}
@@ -384,11 +426,11 @@ func modelBody(name string, abandon int, backpressure bool) func() {
 		cancel()
 		verifrt.WaitIdle()
 		if a := verifrt.Alive(); len(a) > 0 {
-			verifrt.Logf("FAIL goroutine-left %s ## the PullOnOff context is cancelled and nothing can move, yet these threads never ended: %v", name, a)
+			verifrt.Logf("FAIL goroutine-left %s ## the Pull context is cancelled and nothing can move, yet these threads never ended: %v", name, a)
 			return
 		}
-		if !closed && probe != nil {
-			closed = probe()
+		if !closed {
+			closed = drained()
 		}
 		if !closed {
 			verifrt.Logf("FAIL not-closed %s ## channel not closed after cancel", name)
@@ -450,10 +492,12 @@ func main() {
 		res("coll", -2, -1, []string{"upd", "updb", "del"}, subSpec{kind: "coll", backpressure: bp, abandon: -1, cancel: true})
 		res("coll", -2, -1, []string{"upd", "del", "upd"}, subSpec{kind: "id", backpressure: bp, abandon: -1}, subSpec{kind: "coll", backpressure: !bp, abandon: 1})
 	}
-	for _, bp := range []bool{true, false} {
-		for _, ab := range []int{-1, 0, 1} {
-			name := fmt.Sprintf("model/onoff/bp=%v,abandon=%d", bp, ab)
-			h.Sched(name, -1, -1, modelBody(name, ab, bp), hx.StdOracle)
+	for _, kind := range modelKinds {
+		for _, bp := range []bool{true, false} {
+			for _, ab := range []int{-1, 0, 1} {
+				name := fmt.Sprintf("model/%s/bp=%v,abandon=%d", kind.name, bp, ab)
+				h.Sched(name, -1, -1, modelBody(name, kind, ab, bp), hx.StdOracle)
+			}
 		}
 	}
 	registerGeneric(h)
